@@ -17,7 +17,10 @@ EXPLANATION = ("Purity is about object identity and mutation, which a functional
                "shared object leaks (shared_object_assignment_leaks, the mechanism of finding D21). The summaries are validated, not "
                "proved: the harness snapshots every slot of every reachable scope/definition/word object (with an identity map) "
                "around every call of random histories and checks writes within summary, unchanged prints, equal repeated "
-               "results, and faithful, disjoint copies.")
+               "results, and faithful, disjoint copies. Tie to the functional model: after every history the long-lived master and "
+               "sources are merged once more and the result (tree, unused list, extracted values) is compared with the Lean "
+               "fetch model applied to the ORIGINAL texts - a function of its inputs, so 'repeatable and inputs unchanged' "
+               "is checked against one fixed mathematical value rather than against an earlier run.")
 LEVEL_TEXT = EXPLANATION
 LEVEL_NOTE = ("partial: per-call effect summaries are validated at run time on generated histories, the lifting to all histories is "
               "proved in Lean. Known finding D21 (template copies of .multiple scopes share the master's children).")
@@ -194,6 +197,7 @@ def run(ctx):
     import os
     os.environ.update(dict(_fetch.ENV_CHOICES))     # the environment names the generated sources refer to
     n = ctx.scale(400, 6000, 1200)
+    ccases, creqs, cimpls = [], [], []
     for i in range(n):
         if ctx.time_left() < 30:
             ctx.notes.append("stopped early on time budget")
@@ -234,6 +238,13 @@ def run(ctx):
             if (m.as_str(attributes_level=3), [s.as_str(attributes_level=3) for s in ss]) != print0:
                 f = "step %d: %s changed the printed form of the master or a source" % (step, name)
                 break
+        # the model's fetch is a function of the ORIGINAL texts: after the whole history the long-lived master and
+        # sources must still merge to what the model computes from the texts they were parsed from
+        if f is None and ctx.mode != "impl-only":
+            env = dict(_fetch.ENV_CHOICES) if i % 2 == 1 else None
+            creqs.append(_fetch.fetch_req(mt, srcs, env=env))
+            cimpls.append(_fetch.fetch_impl(m, ss))
+            ccases.append(case)
         cls = None
         if f is None:
             f = copies_faithful(m) or shallow_copies_faithful(m, ss)
@@ -243,6 +254,8 @@ def run(ctx):
             ctx.fail(case, f, finding=cls)
         if i % 30 == 0:
             ctx.sample({"master": mt[:300], "history": history})
+    if creqs:
+        ctx.corr("fetch_after_history", ccases, creqs, cimpls)
     # fetch_diff(...).as_str etc. are covered above; interface.index(M) writes captions on shared children (D21)
 
 
